@@ -240,3 +240,90 @@ def run(ctx):
             r6.ok('dominance|%s' % k.split('::')[-1], detail='%s tested first' % first)
         else:
             r6.bad('dominance|%s' % k.split('::')[-1], '%s tests %s before its dominant input %s: with both inputs TRUE the output takes the wrong value' % (k.split('::')[-1], first, dom), loc=fn.loc(0))
+
+    # ------------------------------------------------------------------ R7
+    r7 = ctx.rule('C04.R7', 'after every advance of ET the timer decides against the preset: a comparison of the new ET with PT follows on every path and its outcome reaches Q or the state Q is taken from', floor=3, floor_what='ET advances in the timer step functions')
+    from ..dep import deps
+    for T in ('Ton', 'Tof', 'Tp'):
+        fid = FB + 'timers::%s::step' % T
+        rec = fx.fns.get(fid)
+        if rec is None:
+            r7.bad('anchor-missing|%s' % T, '%s::step not found' % T)
+            continue
+        fn = F(rec)
+        is_et = lambda f: f.endswith('timers::%s.et' % T)
+        # ET advances: writes of `self.et` whose value is not the constant ZERO and not the preset itself
+        adv = []
+        for b in fn.g:
+            for i, st_ in enumerate(fn.bbs[b]['s']):
+                if st_[0] == 'A' and place_fields(st_[1]) and is_et(place_fields(st_[1])[-1]) and st_[2][0] == 'use':
+                    d = deps(fn, st_[2][1])
+                    # the elapsed-time parameter is the last one of step(self, input, pt, delta)
+                    if rec['argc'] in d.args:
+                        adv.append((b, i))
+        # decision comparisons: ET against the preset, with an effect on Q / state
+        dcs = set()
+        for b in fn.g:
+            for i, st_ in enumerate(fn.bbs[b]['s']):
+                if st_[0] == 'A' and st_[2][0] == 'bin' and st_[2][1] in ('Ge', 'Gt', 'Le', 'Lt'):
+                    da, db_ = deps(fn, st_[2][2]), deps(fn, st_[2][3])
+                    et_side = any(is_et(f) for f in da.fields) or any(is_et(f) for f in db_.fields)
+                    pt_side = any('normalize_duration' in c[1] for c in da.calls | db_.calls)
+                    if not (et_side and pt_side):
+                        continue
+                    if st_[1][1]:
+                        # the comparison is assigned straight into a field: a decision if that is a timer field other than et
+                        fs_ = place_fields(st_[1])
+                        if fs_ and 'timers::%s.' % T in fs_[-1] and not is_et(fs_[-1]):
+                            dcs.add((b, i))
+                        continue
+                    res = st_[1][0]
+                    # (a) data: the result is stored into a timer field other than et
+                    data = False
+                    for b2 in fn.g:
+                        for st2 in fn.bbs[b2]['s']:
+                            if st2[0] == 'A' and place_fields(st2[1]) and 'timers::%s.' % T in place_fields(st2[1])[-1] and not is_et(place_fields(st2[1])[-1]) and st2[2][0] == 'use':
+                                if res in deps(fn, st2[2][1]).locals:
+                                    data = True
+                    # (b) control: a switch on the result with a timer-field write (not et) in exactly one branch region
+                    ctrl = False
+                    for sb in fn.g:
+                        t = fn.term(sb)
+                        if t['k'] == 'switch' and op_local(t['d']) is not None and (op_local(t['d']) == res or res in _src4(fn, op_local(t['d']))):
+                            outs = list(fn.g.get(sb, ()))
+                            regs = [fn.reach([x]) for x in outs]
+                            for j, x in enumerate(outs):
+                                only = regs[j] - set().union(*[regs[m] for m in range(len(outs)) if m != j]) if len(outs) > 1 else set()
+                                for ob in only:
+                                    for st2 in fn.bbs[ob]['s']:
+                                        if st2[0] == 'A' and place_fields(st2[1]) and 'timers::%s.' % T in place_fields(st2[1])[-1] and not is_et(place_fields(st2[1])[-1]):
+                                            ctrl = True
+                    if data or ctrl:
+                        dcs.add((b, i))
+        if not adv:
+            r7.bad('anchor-missing|%s|advance' % T, '%s::step no longer advances ET from the elapsed time' % T, loc=fn.loc(0))
+            continue
+        rets = set(fn.returns())
+        n = 0
+        for (wb, wi) in sorted(set(adv)):
+            r7.saw()
+            n += 1
+            key = 'decides|%s' % T + ('' if n == 1 else '#%d' % n)
+            same_block = any(b == wb and i > wi for (b, i) in dcs)
+            dc_blocks = {b for (b, i) in dcs if b != wb}
+            esc = [] if same_block else [r for r in rets if r in fn.reach(list(fn.g.get(wb, ())), avoid=dc_blocks)]
+            if not esc:
+                r7.ok(key, loc=fn.loc(wb))
+            else:
+                r7.bad(key, '%s::step advances ET (line %d) and can return without comparing the new ET with PT in a way that reaches Q: when this call\'s interval already reaches the preset, Q changes one call late' % (T, fn.line(wb)), loc=fn.loc(wb))
+
+
+def _src4(fn, l, depth=0):
+    out = set()
+    if l is None or depth > 4:
+        return out
+    for (b, k, rv) in fn.defs.get(l, []):
+        if k == 'A' and rv[0] == 'use' and rv[1][0] in ('c', 'm') and not rv[1][1][1]:
+            out.add(rv[1][1][0])
+            out |= _src4(fn, rv[1][1][0], depth + 1)
+    return out
